@@ -410,6 +410,10 @@ func checkC16(c *ev.Ctx) {
 	}
 	subjects := []c16Subject{{"rsa1024", fix.RSA(1024).Public(), true}, {"rsa2048", fix.RSA(2048).Public(), true},
 		{"p256", fix.EC(256).Public(), false}, {"p384", fix.EC(384).Public(), false}, {"p521", fix.EC(521).Public(), false}}
+	// RSA subject keys with unusual (legal) public exponents, incl. the ends of the ranges a 32-bit exponent type would cut
+	for _, e := range []int{3, 17, 1<<31 - 1, 1 << 31, 1<<32 + 1, 1<<62 + 1} {
+		subjects = append(subjects, c16Subject{fmt.Sprintf("rsa1024-e%d", e), &rsa.PublicKey{N: fix.RSA(1024).N, E: e}, true})
+	}
 	issuers := []c16Issuer{
 		{"rsa2048", fix.RSA(2048), []x509.SignatureAlgorithm{x509.SHA1WithRSA, x509.SHA256WithRSA, x509.SHA384WithRSA, x509.SHA512WithRSA, x509.SHA256WithRSAPSS}},
 		{"p256", fix.EC(256), []x509.SignatureAlgorithm{x509.ECDSAWithSHA256, x509.ECDSAWithSHA384, x509.ECDSAWithSHA512}},
@@ -425,6 +429,9 @@ func checkC16(c *ev.Ctx) {
 		for _, is := range issuers {
 			for _, alg := range is.algs {
 				for mask := 0; mask < 128; mask++ {
+					if strings.Contains(s.name, "-e") && ((mask != 0 && mask != 127) || (alg != x509.SHA256WithRSA && alg != x509.ECDSAWithSHA256)) {
+						continue // the exponent variants ride on two extension sets and one algorithm per issuer
+					}
 					pc := 0
 					for b := 0; b < 7; b++ {
 						if mask&(1<<b) != 0 {
